@@ -75,7 +75,7 @@ func genC04(t *rapid.T) c04Case {
 	for i := 0; i < n; i++ {
 		kinds := []string{"publish", "publish", "publish", "bounce"}
 		if c.RF > 1 {
-			kinds = append(kinds, "report", "report", "report", "shrink", "expand")
+			kinds = append(kinds, "report", "report", "report", "shrink", "expand", "stalereport")
 		}
 		op := c04Op{Op: rapid.SampledFrom(kinds).Draw(t, "op"), Rep: rapid.IntRange(0, 1).Draw(t, "rep"), Frac: rapid.IntRange(0, 100).Draw(t, "frac")}
 		if op.Op == "publish" {
@@ -134,7 +134,7 @@ func runC04(c c04Case, o *vfutil.Obs) *vfutil.Failure {
 	defer vfL1Close(s)
 	name := fmt.Sprintf("ack%d", c04Seq)
 	replicas := []string{"a", "b", "c"}[:c.RF]
-	index := uint64(1)
+	index := uint64(7) // the partition's leader epoch: older epochs exist (operation stalereport)
 	cfgp := &proto.StreamConfig{MinIsr: &proto.NullableInt32{Value: int32(c.MinISR)}}
 	if c.OCC {
 		cfgp.OptimisticConcurrencyControl = &proto.NullableBool{Value: true}
@@ -417,6 +417,22 @@ func runC04(c c04Case, o *vfutil.Obs) *vfutil.Failure {
 				offsets[rep] = o2
 			}
 			hist = append(hist, fmt.Sprintf("report(%s,%d)", rep, o2))
+		case "stalereport":
+			// a follower that has not applied the latest leader change yet still
+			// fetches with the previous leader epoch and reports the end of the log
+			// it built under the previous leader: not a position in this epoch
+			if c.RF == 1 || leaderEpoch < 2 {
+				continue
+			}
+			old := leaderEpoch - 1 - uint64(op.Frac%3)
+			req, _ := proto.MarshalReplicationRequest(&proto.ReplicationRequest{ReplicaID: rep, Offset: nextOffset - 1 + int64(op.Frac%2), LeaderEpoch: old})
+			if err := nc.PublishRequest(p.getReplicationRequestInbox(), nats.NewInbox(), req); err != nil {
+				return vfutil.Failf("harness/report", "%v", err)
+			}
+			nc.Flush()
+			time.Sleep(3 * time.Millisecond)
+			hist = append(hist, fmt.Sprintf("stalereport(%s,epoch %d)", rep, old))
+			o.Label("replication-request-from-an-older-epoch")
 		case "bounce":
 			// the partition is paused and resumed (what auto-pause or an operator
 			// does): the leader gets a new partition object built from the current
